@@ -36,9 +36,10 @@ Consume ==
                IN /\ ds' = DeliverStep(pcfg, s1, cs)
                   /\ dead' = dead
           ELSE LET r == [task |-> e.task, v |-> e.v, fin |-> e.fin]
-                   \* eq: the history keeps the clients of a task in lockstep (the environment of the plain Monotone clause)
-                   l1 == IF Item.eq THEN PL1(pcfg.n, ds.last, ds.maxk, ds.grew, r)
-                                    ELSE PL1(pcfg.n, ds.last, ds.maxk, ds.grew, r) \cap AnySpeedClauses
+                   \* every clause on every history.  With clients of different speed (Item.eq = FALSE) the plain Monotone clause
+                   \* fails on the code as it is when a slower client reports for the first time (known finding F17; the harness
+                   \* matches a failure of that clause ALONE in such a history against it)
+                   l1 == PL1(pcfg.n, ds.last, ds.maxk, ds.grew, r)
                    m == IF e.fin THEN JoinStep(pcfg, ds) ELSE ReportStep(pcfg, ds)
                    l2 == Running(pcfg, ds) /\ m.rep.v = e.v /\ m.rep.task = e.task
                IN /\ IF l1 = {} THEN TRUE ELSE PrintT(<<"V", Item.id, l, "L1", l1>>)
